@@ -313,6 +313,13 @@ func (a *IntruderAgent) act(w *World) {
 				}
 			})
 		case 2:
+			if w.claimedByOrphanedPhase(k) {
+				// an orphan-propagation delete of a delegated revision leaves its phase objects behind, still
+				// reconciling; once the parent is gone they and the successor revision are unrelated owners of
+				// the same object, and who re-creates it first after a deletion is the schedule's choice
+				w.Stats.Probe("drift-delete-skipped-orphaned-phase-rival")
+				return
+			}
 			w.Stats.Probe("drift-delete")
 			w.Tracef("DRIFT delete %s", k)
 			_ = tp.Delete(k, "Background")
@@ -427,6 +434,28 @@ func (w *World) activelyManaged(cluster string, obj store.Obj) bool {
 						}
 					}
 				}
+				return true
+			}
+		}
+	}
+	return false
+}
+
+// claimedByOrphanedPhase reports whether a phase object that has lost its parent (orphan-propagation
+// delete of the revision) still lists the object among the objects it reconciles.
+func (w *World) claimedByOrphanedPhase(k store.Key) bool {
+	for pk, ph := range w.Mgmt.Objs {
+		if pk.Group != PKOGroup || !isPhaseKind(pk.Kind) || store.Deleting(ph) || len(Controllers(ph, "native")) > 0 {
+			continue
+		}
+		objs, _ := store.Get(ph, "spec", "objects").([]any)
+		for _, e := range objs {
+			em, _ := e.(map[string]any)
+			o, _ := em["object"].(map[string]any)
+			if o == nil {
+				continue
+			}
+			if store.Str(o, "kind") == k.Kind && store.Str(o, "metadata", "name") == k.Name {
 				return true
 			}
 		}
